@@ -232,3 +232,151 @@ def prove_lin(name, goal, hyps=(), timeout_ms=None, **extra):
     except z3.Z3Exception:
         pass
     return prove(name, goal, hyps, timeout_ms, **extra)
+
+
+# ------------------------------------------------------------------------------------------------ refutation by evaluation
+class EvalError(Exception):
+    pass
+
+
+def evaluate(term, assign, interp):
+    """exact evaluation of a z3 term under an assignment of its variables (name -> Fraction/int/bool) and an
+    interpretation of its uninterpreted functions (name -> python function on Fractions).  Used only to REFUTE a
+    universally quantified equality: two terms that differ under some interpretation are not equal."""
+    from fractions import Fraction
+    memo = {}
+
+    def ev(e):
+        k = e.get_id()
+        if k in memo:
+            return memo[k]
+        r = _ev(e)
+        memo[k] = r
+        return r
+
+    def _ev(e):
+        if z3.is_rational_value(e):
+            return e.as_fraction()
+        if z3.is_int_value(e):
+            return e.as_long()
+        if z3.is_true(e):
+            return True
+        if z3.is_false(e):
+            return False
+        if not z3.is_app(e):
+            raise EvalError('not an application: %s' % e)
+        d = e.decl()
+        kind = d.kind()
+        if kind == z3.Z3_OP_UNINTERPRETED:
+            nm = d.name()
+            if e.num_args() == 0:
+                if nm in assign:
+                    return assign[nm]
+                raise EvalError('unassigned ' + nm)
+            f = interp.get(nm) or interp.get('*')
+            if f is None:
+                raise EvalError('no interpretation for ' + nm)
+            return f(nm, *[ev(c) for c in e.children()]) if f is interp.get('*') else f(*[ev(c) for c in e.children()])
+        ch = e.children()
+        if kind == z3.Z3_OP_ITE:
+            return ev(ch[1]) if ev(ch[0]) else ev(ch[2])
+        if kind == z3.Z3_OP_AND:
+            return all(ev(c) for c in ch)
+        if kind == z3.Z3_OP_OR:
+            return any(ev(c) for c in ch)
+        if kind == z3.Z3_OP_NOT:
+            return not ev(ch[0])
+        if kind == z3.Z3_OP_IMPLIES:
+            return (not ev(ch[0])) or ev(ch[1])
+        vs = [ev(c) for c in ch]
+        if kind == z3.Z3_OP_ADD:
+            return sum(vs[1:], vs[0])
+        if kind == z3.Z3_OP_SUB:
+            r = vs[0]
+            for v in vs[1:]:
+                r = r - v
+            return r
+        if kind == z3.Z3_OP_UMINUS:
+            return -vs[0]
+        if kind == z3.Z3_OP_MUL:
+            r = vs[0]
+            for v in vs[1:]:
+                r = r * v
+            return r
+        if kind == z3.Z3_OP_DIV:
+            if vs[1] == 0:
+                raise EvalError('division by zero')
+            return Fraction(vs[0]) / Fraction(vs[1])
+        if kind == z3.Z3_OP_IDIV:
+            if vs[1] == 0:
+                raise EvalError('division by zero')
+            return vs[0] // vs[1] if vs[1] > 0 else -(vs[0] // -vs[1])
+        if kind == z3.Z3_OP_MOD:
+            if vs[1] == 0:
+                raise EvalError('division by zero')
+            return vs[0] % abs(vs[1])
+        if kind == z3.Z3_OP_POWER:
+            return Fraction(vs[0]) ** int(vs[1])
+        if kind == z3.Z3_OP_TO_REAL:
+            return Fraction(vs[0])
+        if kind == z3.Z3_OP_TO_INT:
+            import math
+            return math.floor(vs[0])
+        if kind == z3.Z3_OP_LE:
+            return vs[0] <= vs[1]
+        if kind == z3.Z3_OP_LT:
+            return vs[0] < vs[1]
+        if kind == z3.Z3_OP_GE:
+            return vs[0] >= vs[1]
+        if kind == z3.Z3_OP_GT:
+            return vs[0] > vs[1]
+        if kind == z3.Z3_OP_EQ:
+            return vs[0] == vs[1]
+        if kind == z3.Z3_OP_DISTINCT:
+            return len(set(vs)) == len(vs)
+        raise EvalError('unsupported operator %s' % d.name())
+    import sys
+    old = sys.getrecursionlimit()
+    sys.setrecursionlimit(max(old, 20000))
+    try:
+        return ev(term)
+    finally:
+        sys.setrecursionlimit(old)
+
+
+def default_interp():
+    """a concrete interpretation of the uninterpreted functions the overlays introduce (any interpretation is legitimate
+    for refuting an equality)"""
+    from fractions import Fraction
+
+    def generic(nm, *a):
+        # percentile contracts: an actual order statistic of the arguments; everything else: a fixed rational function
+        if nm.startswith('pctl'):
+            q = int(''.join(ch for ch in nm[4:6] if ch.isdigit()) or 50)
+            s = sorted(a)
+            return s[min(len(s) - 1, (len(s) * q) // 100)]
+        h = sum((i + 2) * Fraction(v) for i, v in enumerate(a))
+        salt = sum(ord(c) for c in nm) % 7 + 1
+        return h * h / (salt + 3) + h / salt + Fraction(salt, 5)
+    return {'*': generic, 'nom': lambda t: 1 + Fraction(t) * Fraction(t) / 7, 'log_r': lambda t: Fraction(t) / 3 + 1}
+
+
+def refute_equal(name, lhs_terms, rhs_terms, varnames, seeds=(1, 2, 3), **extra):
+    """try to refute And(lhs_i == rhs_i) by exact evaluation at a few rational points; returns True if refuted
+    (an obligation with status 'refuted' and the witness is recorded)"""
+    import random
+    from fractions import Fraction
+    interp = default_interp()
+    for sd in seeds:
+        rnd = random.Random(sd)
+        assign = {v: Fraction(rnd.randint(-40, 40), rnd.randint(7, 23)) for v in varnames}
+        try:
+            for a, b in zip(lhs_terms, rhs_terms):
+                va, vb = evaluate(a, assign, interp), evaluate(b, assign, interp)
+                if va != vb:
+                    record(name, 'refuted', 'closed-term evaluation under a concrete interpretation', 0.0,
+                           {k: str(v) for k, v in assign.items()}, 'vc', note='lhs=%s rhs=%s' % (float(va), float(vb)), **extra)
+                    return True
+        except (EvalError, ZeroDivisionError, OverflowError, RecursionError):
+            continue
+    return False
